@@ -6,7 +6,6 @@
  * close is never called on a descriptor that was not handed out or was already closed; at the end every descriptor handed
  * out was closed exactly once. */
 #include "harness.h"
-#include "env_msg.h"
 uint8_t* w_sfd_new(void);
 uint8_t* w_sfd_new_fd(uint32_t fd);
 uint8_t* w_sfd_new_open(uint8_t* path, int64_t* code);
@@ -19,6 +18,12 @@ void w_sfd_close(uint8_t* h);
 int64_t w_sfd_get(uint8_t* h);
 int64_t w_sfd_is_open(uint8_t* h);
 
+#ifndef VERIF_NATIVE_REAL
+/* generated C only (spec: unit 'fsx' cuts this constructor): it only concatenates the what() text
+ * "can't open file <name>: <errno text>"; with it encoded the string appends over strlen-derived (symbolic) lengths cost
+ * 22M SAT variables / 12 GB per query. The throw itself, the exception type and the std::string temporary are encoded. */
+void X__ZN5phosg16cannot_open_fileC1ERKNSt7__cxx1112basic_stringIcSt11char_traitsIcESaIcEEE(uint8_t* self, uint8_t* name) { (void)self; (void)name; }
+#endif
 #define W_CANNOT_OPEN (-21)
 #define FD0 10
 #define MAXFD (NOPS + 1)
